@@ -37,6 +37,9 @@ def load(path: str | os.PathLike, format: str | None = None) -> _core.Model:
     # Set the base directory for external data to the directory of the ONNX file
     # so that relative paths are resolved correctly.
     _external_data.set_base_dir(model.graph, base_dir)
+    # Model-local functions can hold external tensors (e.g. Constant nodes) too
+    for function in model.functions.values():
+        _external_data.set_base_dir(function, base_dir)
     return model
 
 
